@@ -506,3 +506,174 @@ def op_const(op):
         except ValueError:
             return None
     return None
+
+
+# ------------------------------------------------------------------------------------------
+# call graph over HIR (resolved callees; closures are part of their parent's tree)
+
+
+def strip_generics(path):
+    """'a::B::<T>::f::<U>' -> 'a::B::<T>::f' is NOT wanted; we normalise resolved paths to def paths
+    by removing every '::<...>' group."""
+    out = []
+    depth = 0
+    i = 0
+    while i < len(path):
+        if path.startswith("::<", i) and depth == 0:
+            depth = 1
+            i += 3
+            continue
+        c = path[i]
+        if depth > 0:
+            if c == "<":
+                depth += 1
+            elif c == ">":
+                depth -= 1
+            i += 1
+            continue
+        out.append(c)
+        i += 1
+    return "".join(out)
+
+
+class CallGraph:
+    def __init__(self, fx):
+        self.fx = fx
+        self.edges = defaultdict(set)  # def -> set of crate-local defs (bodies)
+        self.ext = defaultdict(set)  # def -> set of external callee strings
+        self.sites = defaultdict(list)  # def -> [(callee_def, node)]
+        self.norm = {}
+        for name in fx.bodies:
+            self.norm[strip_generics(name)] = name
+        self.dyn_impls = defaultdict(list)  # trait method generic def -> impl bodies
+        self.impl_index = defaultdict(list)
+        for i in fx.impls:
+            tr = i.get("trait")
+            if not tr:
+                continue
+            self.impl_index[(i.get("self_adt") or i.get("self_ty"), tr)].append(i)
+            for it in i["items"]:
+                if it["def"] in fx.bodies:
+                    self.dyn_impls[f"{tr}::{it['name']}"].append(it["def"])
+        for b in fx.bodies.values():
+            if "hir" not in b:
+                continue
+            self._scan(b)
+
+    def _impl_method(self, res):
+        """'<SELF as TRAIT>::m' -> local body of that impl method, or 'ext' if SELF/TRAIT impl is not local."""
+        if not res or not res.startswith("<") or " as " not in res:
+            return None
+        depth = 0
+        end = None
+        for i, c in enumerate(res):
+            if c == "<":
+                depth += 1
+            elif c == ">":
+                depth -= 1
+                if depth == 0:
+                    end = i
+                    break
+        if end is None:
+            return None
+        inner = res[1:end]
+        method = res[end + 1 :].lstrip(":")
+        method = strip_generics(method)
+        # split at top-level ' as '
+        depth = 0
+        cut = None
+        i = 0
+        while i < len(inner):
+            c = inner[i]
+            if c == "<":
+                depth += 1
+            elif c == ">":
+                depth -= 1
+            elif depth == 0 and inner.startswith(" as ", i):
+                cut = i
+                break
+            i += 1
+        if cut is None:
+            return None
+        self_ty, trait = inner[:cut], inner[cut + 4 :]
+        self_adt = self_ty.split("<")[0].lstrip("&").replace("mut ", "").strip()
+        trait_def = trait.split("<")[0]
+        if self_adt.startswith("dyn "):
+            return ("dyn", f"{trait_def}::{method}")
+        for i2 in self.impl_index.get((self_adt, trait_def), []):
+            for it in i2["items"]:
+                if it["name"] == method and it["def"] in self.fx.bodies:
+                    return it["def"]
+        return "ext"
+
+    def resolve_local(self, n):
+        """Crate-local body names a call node may dispatch to."""
+        fx = self.fx
+        res = n.get("resolved") if n.get("k") != "Call" else n["f"].get("resolved")
+        gen = callee_def(n)
+        full = callee(n)
+        for cand in (res, full, gen):
+            if not cand:
+                continue
+            if cand in fx.bodies:
+                return [cand]
+            s = strip_generics(cand)
+            if s in self.norm:
+                return [self.norm[s]]
+        if res:
+            m = self._impl_method(res)
+            if isinstance(m, tuple):
+                return list(self.dyn_impls.get(m[1], []))
+            if m == "ext" or m is None:
+                # resolved to something outside the crate (or a local trait default handled above)
+                return []
+            return [m]
+        if gen in self.dyn_impls:
+            # unresolved trait method call (dyn Trait or a generic receiver): all impls in the crate
+            return list(self.dyn_impls[gen])
+        return []
+
+    def _scan(self, b):
+        name = b["def"]
+        for n, ps in walk(b["hir"]["value"]):
+            k = n.get("k")
+            if k in ("Call", "MethodCall"):
+                locs = self.resolve_local(n)
+                for l in locs:
+                    self.edges[name].add(l)
+                    self.sites[name].append((l, n))
+                if not locs:
+                    self.ext[name].add(callee(n) or callee_def(n) or "?")
+            elif k == "Path" and n.get("res") == "def" and str(n.get("defkind", "")).startswith(("Fn", "AssocFn")):
+                # function value mentioned (callbacks)
+                d = n.get("resolved") or n.get("def_full") or n.get("def")
+                for cand in (d, n.get("def")):
+                    if not cand:
+                        continue
+                    if cand in self.fx.bodies:
+                        self.edges[name].add(cand)
+                        break
+                    s = strip_generics(cand)
+                    if s in self.norm:
+                        self.edges[name].add(self.norm[s])
+                        break
+            elif k in ("Binary", "Unary", "AssignOp", "Index") and n.get("resolved"):
+                s = strip_generics(n["resolved"])
+                if n["resolved"] in self.fx.bodies:
+                    self.edges[name].add(n["resolved"])
+                elif s in self.norm:
+                    self.edges[name].add(self.norm[s])
+
+    def reachable(self, roots):
+        seen = set()
+        stack = list(roots)
+        while stack:
+            x = stack.pop()
+            if x in seen:
+                continue
+            seen.add(x)
+            stack.extend(self.edges.get(x, ()))
+        return seen
+
+    def callers_of(self, target):
+        return {a for a, bs in self.edges.items() if target in bs}
